@@ -362,6 +362,20 @@ def guarded_lookups(prog, rep):
                     t = norm(lab[1])
                     return (t == f"{k} in {d}" and lab[2] is True) or (t == f"{k} not in {d}" and lab[2] is False)
 
+                # EAFP: the lookup sits in a try whose KeyError (or LookupError) handler ends in raising a query error
+                good_ = query_errors(prog)
+                p_, child, eafp = parent(s), s, False
+                while p_ is not None and p_ is not fi.node:
+                    if isinstance(p_, ast.Try) and any(child is x or any(child is y for y in ast.walk(x)) for x in p_.body):
+                        for h in p_.handlers:
+                            names_ = [norm(h.type)] if h.type is not None and not isinstance(h.type, ast.Tuple) else ([norm(e_) for e_ in h.type.elts] if h.type is not None else [])
+                            last = h.body[-1] if h.body else None
+                            if any(x in ("KeyError", "LookupError") for x in names_) and isinstance(last, ast.Raise) and last.exc is not None and norm(last.exc.func if isinstance(last.exc, ast.Call) else last.exc) in good_:
+                                eafp = True
+                    child, p_ = p_, parent(p_)
+                if eafp:
+                    rep.ok("KEY-GUARD", fi.short, f"{d}[{k}]", "inside try / except KeyError -> query error", fi.loc(s))
+                    continue
                 reach = g.reach_filtered(g.entry, lambda u, v, lab: not asserts_present(lab))
                 rep.check(node not in reach, "KEY-GUARD", fi.short, f"{d}[{k}]", f"dominated by `{k} in {d}`", f"`{d}[{k}]` can be reached without `{k} in {d}`: an unknown {'variable' if d == 'namespace' else 'function'} surfaces as KeyError instead of an interpret error", fi.loc(s))
         for n in walk_with_nested_exprs(fi.node):
